@@ -57,8 +57,8 @@ def variants(k):
     return [{}]
 
 
-def rule_r1(rep, program: Program):
-    r = rep.rule("R1", "h == h1 + h2, dh_dpos == dh1_dpos + dh2_dpos, dh_dmom == dh2_dmom for the fully resolved methods of every concrete system class", floor=30)
+def rule_r1(rep, program: Program, prop=PROP, rule="R1"):
+    r = rep.rule(rule, "h == h1 + h2, dh_dpos == dh1_dpos + dh2_dpos, dh_dmom == dh2_dmom for the fully resolved methods of every concrete system class", floor=30)
     for k in c09.system_classes(program):
         for flags in variants(k):
             ex = MethodExpander(program, k, EXPAND, flags)
@@ -71,7 +71,7 @@ def rule_r1(rep, program: Program):
                 r.inst({"class": tag, "identity": f"{lhs} == {' + '.join(rhs_names)}", "lhs": repr(vals[lhs])[:120]})
                 if not vals[lhs].equals(rhs):
                     f = k.resolve(lhs)
-                    r.violate(PROP, f"{k.name}.{lhs}!={'+'.join(rhs_names)}", f"for {tag}: {lhs} resolves ({f.qualname}) to {vals[lhs]!r} but {' + '.join(rhs_names)} is {rhs!r}", node=f.node, file=f.file)
+                    r.violate(prop, f"{k.name}.{lhs}!={'+'.join(rhs_names)}", f"for {tag}: {lhs} resolves ({f.qualname}) to {vals[lhs]!r} but {' + '.join(rhs_names)} is {rhs!r}", node=f.node, file=f.file)
     seen, uniq = set(), []
     for fd in r.findings:
         if fd.key not in seen:
